@@ -91,9 +91,17 @@ func validateBuckets(buckets []float64) error {
 	return nil
 }
 
+// minSummaryStreamDuration is the shortest max_age / age_buckets the loader
+// accepts. The client library advances a summary's buffer expiry in steps of
+// that duration until it has caught up with the wall clock, so a step of a few
+// nanoseconds never catches up and a step of a few microseconds makes every
+// scrape and observation spin for a noticeable fraction of the idle time.
+const minSummaryStreamDuration = time.Millisecond
+
 // validateSummaryOptions rejects summary options that make the client library
-// panic (negative max_age, quantile ranks outside [0, 1]) or spin forever (a
-// max_age so small that max_age / age_buckets is zero).
+// panic (negative max_age, quantile ranks outside [0, 1]) or spin (a max_age
+// so small, or so many age_buckets, that max_age / age_buckets is below
+// minSummaryStreamDuration).
 func validateSummaryOptions(o SummaryOptions) error {
 	for _, q := range o.Quantiles {
 		if !(q.Quantile >= 0 && q.Quantile <= 1) {
@@ -107,8 +115,12 @@ func validateSummaryOptions(o SummaryOptions) error {
 	if ageBuckets == 0 {
 		ageBuckets = prometheus.DefAgeBuckets
 	}
-	if o.MaxAge != 0 && o.MaxAge/time.Duration(ageBuckets) == 0 {
-		return fmt.Errorf("max_age %v is too small for %d age buckets", o.MaxAge, ageBuckets)
+	maxAge := o.MaxAge
+	if maxAge == 0 {
+		maxAge = prometheus.DefMaxAge
+	}
+	if maxAge/time.Duration(ageBuckets) < minSummaryStreamDuration {
+		return fmt.Errorf("max_age %v is too small for %d age buckets (at least %v per bucket)", maxAge, ageBuckets, minSummaryStreamDuration)
 	}
 	return nil
 }
